@@ -220,6 +220,18 @@ class MaybeEncodingError(Exception):
         return "Error sending result: '%r'. Reason: '%r'." % (
             self.value, self.exc)
 
+    def __reduce__(self):
+        # exc and value already are reprs: rebuild without calling
+        # __init__, which would apply repr() to them again.
+        return _rebuild_maybe_encoding_error, (self.exc, self.value)
+
+
+def _rebuild_maybe_encoding_error(exc, value):
+    obj = MaybeEncodingError.__new__(MaybeEncodingError)
+    obj.exc, obj.value = exc, value
+    Exception.__init__(obj, exc, value)
+    return obj
+
 
 class WorkersJoined(Exception):
     """All workers have terminated."""
